@@ -761,7 +761,9 @@ fn leak(s: String) -> &'static str {
     Box::leak(s.into_boxed_str())
 }
 fn c18(st: &mut Stats, max: u32) -> Res {
-    let alphabet = ["a", "Z", "_", "7", "r", "#", ":", " ", "é", "-"];
+    // class representatives: letters, digit, underscore, the raw-prefix characters, and one character from every gap of the
+    // ASCII table around the identifier classes (below 0, between 9 and A, between Z and a, above z), plus non-ASCII
+    let alphabet = ["a", "Z", "_", "7", "r", "#", ":", " ", "é", "/", "@", "[", "`", "{"];
     let maxlen = max.min(5) as usize;
     let mut words: Vec<&'static str> = vec![""];
     let mut frontier = vec![String::new()];
